@@ -443,14 +443,15 @@ def rand_upd_input(rng):
     n = rng.choice([0, 1, 2, 2, 3, 4, 5])
     pool = rng.sample(range(1, 60), n)
     it = rng.choice([0, 0, 1, 2, rng.randint(0, 20)])
-    width = rng.choice([it, it + 1, it + 1, it + rng.randint(1, 14)])       # width == it: nothing allocated ahead
+    width = rng.choice([it, it + 1, it + 1, it + rng.randint(1, 14), it + rng.randint(1, 14),
+                        max(1, it - rng.randint(1, 3))])     # width == it: nothing allocated ahead; < it: not reachable by run()
     if width == 0:
         width = 1
     matrix = [[rng.choice([0.0, 0.0, 6.0, 16.0, round(rng.uniform(0, 64), 2)]) for _ in range(width)] for _ in pool]
     last = rng.choice([None, None, it + 1, width - 1, width + rng.randint(0, 9), rng.randint(0, 30)])
     if last is not None and last < 0:
         last = None
-    mal = rng.choice([None, None, None, None, None, "unknown", "ragged", "both"])
+    mal = rng.choice([None, None, None, None, None, None, "unknown", "ragged", "ragged", "both"])
     sub = rand_submission(rng, pool, it, width, last is None, malformed=mal)
     plugged = [s for s in pool if rng.random() < 0.5]
     return dict(stations=pool, iteration=it, matrix=matrix, width=width, last=last, plugged=plugged, sub=sub,
